@@ -134,6 +134,8 @@ def _case(rng, progs, order, prologue, nk, mode, dial, eocs, kind):
             for k in range(1, nk + 1):
                 ops.append([i, LOAD, k, 0])
             ops.append([i, COMMIT, 0, 0])
+    if mode == 2:
+        dial = 0  # joined inheritance only with sane rowcounts: otherwise the unversioned tables are written although the root statement matched nothing
     seqs = [_prog(p, i, vals) for i, p in enumerate(progs)]
     pos = [0] * len(progs)
     for i in order:
@@ -191,9 +193,10 @@ def gen_cases(rng, tier):
             op = rng.choice([LOAD, SET, SET, SETY, DEL, FLUSH, COMMIT, COMMIT, ROLLBACK])
             ops.append([rng.randrange(ns), op, rng.randint(1, nk) if op in (LOAD, SET, DEL, SETY) else 0,
                         rng.randint(2, 9) if op in (SET, SETY) else 0])
+        mode = rng.choice([0, 1, 2])
         cases.append(
             {
-                "in": [rng.choice([0, 1, 2]), rng.choice([0, 0, 0, 1, 2]), [rng.choice([0, 0, 1]) for _ in range(ns)],
+                "in": [mode, rng.choice([0, 0, 0, 1, 2]) if mode < 2 else 0, [rng.choice([0, 0, 1]) for _ in range(ns)],
                        [[k, 0, 0, 1] for k in range(1, nk + 1)], ops],
                 "kind": "random",
             }
